@@ -893,6 +893,11 @@ static std::string cqm_op(Cqms& C, const std::string& op, Toks& T) {
         } else if (sub == "addq") {
             int u = T.n(), v = T.n();
             e.add_quadratic(u, v, T.d());
+        } else if (sub == "addqb") {
+            // the append-at-the-back path; the caller guarantees the ordering promise on the
+            // expression's INTERNAL indices
+            int u = T.n(), v = T.n();
+            e.add_quadratic_back(u, v, T.d());
         } else if (sub == "setq") {
             int u = T.n(), v = T.n();
             double b = T.d();
